@@ -114,7 +114,213 @@ def occultedForward {m n : Nat} (F : Vector (Vec K n) m) (B : Vector (Vec K m) n
   let foc := matVec F E
   matVec B (Vector.ofFn fun k => foc[k] * mask[k])
 
+/-- `LyotCoronagraph.backward`: `wf = lyot_stop.backward(E)` (an `Apodizer` multiplies by the
+*conjugate*, `cj`); `wf_foc = F wf; wf_foc -= conj(m) * wf_foc; pup = B wf_foc; pup = wf - pup`.
+The stop acts first, the same pair `F`, `B` is used in the same order as in `forward`. -/
+def lyotBackward {m n : Nat} (cj : K → K) (F : Vector (Vec K n) m) (B : Vector (Vec K m) n) (mask : Vec K m)
+    (stop : Option (Vec K n)) (E : Vec K n) : Vec K n :=
+  let wf : Vec K n := match stop with
+    | none => E
+    | some s => Vector.ofFn fun i => E[i] * cj s[i]
+  let foc := matVec F wf
+  let foc' : Vec K m := Vector.ofFn fun k => foc[k] - foc[k] * cj mask[k]
+  let pup := matVec B foc'
+  Vector.ofFn fun i => wf[i] - pup[i]
+
+/-- `OccultedLyotCoronagraph.backward`: `B (conj(m) * (F E))`. -/
+def occultedBackward {m n : Nat} (cj : K → K) (F : Vector (Vec K n) m) (B : Vector (Vec K m) n) (mask : Vec K m)
+    (E : Vec K n) : Vec K n :=
+  let foc := matVec F E
+  matVec B (Vector.ofFn fun k => foc[k] * cj mask[k])
+
+/-- `Σ_i conj(u_i) v_i` (unweighted; pupil and Lyot plane share one regular grid). -/
+def cdot {n : Nat} (cj : K → K) (u v : Vec K n) : K := Fin.foldl n (fun acc i => acc + cj u[i] * v[i]) 0
+
+/-- Entry `(i, k)` of `B − Fᴴ` (all zero iff `backward` of the propagator is the adjoint of its `forward`). -/
+def propAdjointDefect {m n : Nat} (cj : K → K) (F : Vector (Vec K n) m) (B : Vector (Vec K m) n)
+    (i : Fin n) (k : Fin m) : K := B[i][k] - cj F[k][i]
+
 end Scalar
+
+/-! ## 5. The perfect coronagraph as the code literally computes it (round 4)
+
+`forward` evaluates `E − einsum('kj,j,ji,...i->...k', T, coeffs, T⁺, E)` with `T = transformation`
+(`n × k`, one row per grid point) and `T⁺ = transformation_inverse` (`k × n`).  This section models
+that expression for *arbitrary* matrices; the driver runs it on the matrices of the real object
+(floats are exact rationals; a complex `n × k` matrix is sent as its real `2n × 2k` form), and the
+hypotheses of the theorems (`LeftInv`, `WAdjoint`, `NullsModes`) are the decidable predicates whose
+defects the driver reports for the real `transformation` on every run. -/
+section Literal
+variable {K : Type} [Add K] [Sub K] [Mul K] [Div K] [OfNat K 0] [OfNat K 1] [Pow K Nat]
+
+/-- `E − T (c ∘ (T⁺ E))`. -/
+def perfectMat {n k : Nat} (T : Vector (Vec K k) n) (Tinv : Vector (Vec K n) k) (c : Vec K k)
+    (E : Vec K n) : Vec K n :=
+  let a := matVec Tinv E
+  let ca : Vec K k := Vector.ofFn fun j => c[j] * a[j]
+  let corr := matVec T ca
+  Vector.ofFn fun i => E[i] - corr[i]
+
+/-- `coeffs = np.ones(…)`. -/
+def onesVec (K : Type) [OfNat K 1] (k : Nat) : Vec K k := Vector.ofFn fun _ => 1
+
+/-- Column `l` of a matrix given by rows. -/
+def col {n k : Nat} (T : Vector (Vec K k) n) (l : Fin k) : Vec K n := Vector.ofFn fun i => T[i][l]
+
+/-- Entry `(j, l)` of `T⁺ T − I` (zero for all `j, l` iff `T⁺` is a left inverse of `T`). -/
+def leftInvDefect {n k : Nat} (T : Vector (Vec K k) n) (Tinv : Vector (Vec K n) k) (j l : Fin k) : K :=
+  dot Tinv[j] (col T l) - (if j = l then 1 else 0)
+
+/-- Entry `(j, i)` of `T⁺ − μ Tᵀ W` (zero iff `T⁺` is `μ` times the adjoint of `T` in the inner
+product weighted by `w`; the code has `T⁺ = Tᴴ`, i.e. `w` constant and `μ = 1/w`). -/
+def adjointDefect {n k : Nat} (T : Vector (Vec K k) n) (Tinv : Vector (Vec K n) k) (w : Vec K n) (mu : K)
+    (j : Fin k) (i : Fin n) : K :=
+  Tinv[j][i] - mu * (T[i][j] * w[i])
+
+/-- `get_transformation_matrix_forward()` (= `…_backward()`): `np.eye(n) − T.dot(coeffs[:, None] * T⁺)`,
+the matrix the object reports for itself (with the row-wise broadcast of D109). -/
+def perfectMatrix {n k : Nat} (T : Vector (Vec K k) n) (Tinv : Vector (Vec K n) k) (c : Vec K k) :
+    Vector (Vec K n) n :=
+  Vector.ofFn fun i => Vector.ofFn fun i' =>
+    (if i = i' then 1 else 0) - dot T[i] (Vector.ofFn fun j => c[j] * Tinv[j][i'])
+
+/-- `total_power` of one real component: `Σ w_i E_i²`. -/
+def powerW {n : Nat} (w E : Vec K n) : K := Fin.foldl n (fun acc i => acc + w[i] * (E[i] * E[i])) 0
+
+end Literal
+
+/-! ## 6. Multi-scale coronagraphs: the algebra of the construction and of `forward` (round 4)
+
+All focal-plane levels are embedded in one index set `Fin d` (the harness embeds the level grids
+as disjoint blocks; the telescoping theorem uses nested supports).  A level carries what the
+constructor computes for it and the operators it uses:
+
+* `raw = complex_mask(focal_grid)`, `win` = the padded window (ignored on the last level, as in
+  `if i != levels - 1`),
+* `R[j]` = the resampling `mft.backward(fft.forward(·))` of the mask of level `j < i` to this level,
+* `F`, `B` = what `prop.forward` / `prop.backward` do (level 0: the two halves of `FourierFilter`). -/
+section MultiScaleAlgebra
+variable {K : Type} [Add K] [Sub K] [Mul K] [Div K] [OfNat K 0] [OfNat K 1] [Pow K Nat]
+
+structure MSLevel (K : Type) (d n : Nat) where
+  raw : Vec K d
+  win : Vec K d
+  R : List (Vector (Vec K d) d)
+  F : Vector (Vec K n) d
+  B : Vector (Vec K d) n
+
+/-- `focal_mask -= mft.backward(fft.forward(focal_masks[j]))` for every earlier level `j`
+(`zip`: a missing resampler or mask subtracts nothing). -/
+def subCorrections {d : Nat} : Vec K d → List (Vector (Vec K d) d) → List (Vec K d) → Vec K d
+  | acc, R :: Rs, M :: Ms =>
+    let c := matVec R M
+    subCorrections (Vector.ofFn fun p => acc[p] - c[p]) Rs Ms
+  | acc, _, _ => acc
+
+/-- The stored mask of one level, given the masks of the earlier levels. -/
+def msMask {d n : Nat} (l : MSLevel K d n) (last : Bool) (prev : List (Vec K d)) : Vec K d :=
+  let m0 : Vec K d := if last then l.raw else Vector.ofFn fun p => l.raw[p] * (1 - l.win[p])
+  subCorrections m0 l.R prev
+
+/-- The constructor's loop: `prev` are the masks built so far. -/
+def msMasksAux {d n : Nat} : List (Vec K d) → List (MSLevel K d n) → List (Vec K d)
+  | prev, [] => prev
+  | prev, l :: ls => msMasksAux (prev ++ [msMask l ls.isEmpty prev]) ls
+
+def msMasks {d n : Nat} (ls : List (MSLevel K d n)) : List (Vec K d) := msMasksAux [] ls
+
+/-- One term of `forward`: `prop.backward(mask * prop.forward(E))`. -/
+def msTerm {d n : Nat} (l : MSLevel K d n) (M : Vec K d) (E : Vec K n) : Vec K n :=
+  let foc := matVec l.F E
+  matVec l.B (Vector.ofFn fun p => foc[p] * M[p])
+
+/-- `lyot = term_0; lyot += term_i …` -/
+def msSum {d n : Nat} : List (MSLevel K d n) → List (Vec K d) → Vec K n → Vec K n
+  | l :: ls, M :: Ms, E =>
+    let t := msTerm l M E
+    let r := msSum ls Ms E
+    Vector.ofFn fun i => t[i] + r[i]
+  | _, _, _ => zeroVec K n
+
+/-- `MultiScaleCoronagraph.forward` on a wavefront whose wavelength has been set to 1 (the code
+does `wavefront.wavelength = 1` first and restores it afterwards): the wavelength does not enter. -/
+def msForward {d n : Nat} (ls : List (MSLevel K d n)) (stop : Option (Vec K n)) (E : Vec K n) : Vec K n :=
+  let out := msSum ls (msMasks ls) E
+  match stop with
+  | none => out
+  | some s => Vector.ofFn fun i => out[i] * s[i]
+
+/-- `MultiScaleCoronagraph.backward` (wavelength already 1): the Lyot stop acts first
+(`lyot_stop.backward`, an `Apodizer`: the conjugate), every level uses the same `prop.forward` /
+`prop.backward` pair in the same order as `forward`, with the stored mask conjugated
+(`FourierFilter.backward` on level 0, `focal.electric_field *= mask.conj()` on the others). -/
+def msBackward {d n : Nat} (cj : K → K) (ls : List (MSLevel K d n)) (stop : Option (Vec K n)) (E : Vec K n) : Vec K n :=
+  let wf : Vec K n := match stop with
+    | none => E
+    | some s => Vector.ofFn fun i => E[i] * cj s[i]
+  msSum ls ((msMasks ls).map fun M => Vector.ofFn fun p => cj M[p]) wf
+
+/-! ### the design the level bookkeeping must realise: exact windows on nested supports
+
+All levels sample one focal plane `Fin d`; level `i` sees only the samples of its support `S_i`
+(its propagators are the restrictions of one pair `F`, `B`), samples the same mask `m`, and
+resampling a coarser mask to it is exact (the identity on the common plane). -/
+
+/-- `F` restricted to the support: rows outside are zero. -/
+def restrictRows {d n : Nat} (F : Vector (Vec K n) d) (S : Vector Bool d) : Vector (Vec K n) d :=
+  Vector.ofFn fun p => if S[p] then F[p] else zeroVec K n
+
+/-- `B` restricted to the support: columns outside are zero. -/
+def restrictCols {d n : Nat} (B : Vector (Vec K d) n) (S : Vector Bool d) : Vector (Vec K d) n :=
+  Vector.ofFn fun i => Vector.ofFn fun p => if S[p] then B[i][p] else 0
+
+def idMat (K : Type) [OfNat K 0] [OfNat K 1] (d : Nat) : Vector (Vec K d) d :=
+  Vector.ofFn fun p => Vector.ofFn fun q => if p = q then 1 else 0
+
+/-- Level number `i` of the exact design: support `S`, window `w`. -/
+def exactLevel {d n : Nat} (m : Vec K d) (F : Vector (Vec K n) d) (B : Vector (Vec K d) n)
+    (i : Nat) (sp : Vector Bool d × Vec K d) : MSLevel K d n :=
+  { raw := m, win := sp.2, R := List.replicate i (idMat K d), F := restrictRows F sp.1, B := restrictCols B sp.1 }
+
+def exactLevelsFrom {d n : Nat} (m : Vec K d) (F : Vector (Vec K n) d) (B : Vector (Vec K d) n) :
+    Nat → List (Vector Bool d × Vec K d) → List (MSLevel K d n)
+  | _, [] => []
+  | i, sp :: sps => exactLevel m F B i sp :: exactLevelsFrom m F B (i + 1) sps
+
+def exactLevels {d n : Nat} (m : Vec K d) (F : Vector (Vec K n) d) (B : Vector (Vec K d) n)
+    (sps : List (Vector Bool d × Vec K d)) : List (MSLevel K d n) := exactLevelsFrom m F B 0 sps
+
+/-- The single-level reference: `B (m · F E)`. -/
+def idealForward {d n : Nat} (m : Vec K d) (F : Vector (Vec K n) d) (B : Vector (Vec K d) n) (E : Vec K n) : Vec K n :=
+  let foc := matVec F E
+  matVec B (Vector.ofFn fun p => foc[p] * m[p])
+
+/-- Decidable side conditions of the telescoping theorem: `u` (the window of the previous level,
+all ones before level 0) and the level's own window vanish outside the level's support. -/
+def nestedOK [BEq K] {d : Nat} : Vec K d → List (Vector Bool d × Vec K d) → Bool
+  | _, [] => true
+  | u, sp :: sps =>
+    (List.finRange d).all (fun p => sp.1[p] || (u[p] == 0 && sp.2[p] == 0)) && nestedOK sp.2 sps
+
+/-- A monochromatic wavefront: field and wavelength. -/
+structure Wf (K : Type) (n : Nat) where
+  E : Vec K n
+  wavelength : K
+
+/-- `forward` including the wavelength bookkeeping.  `lsAt wl` are the levels with the operators
+their propagators have *when called at wavelength `wl`* (a Fraunhofer propagator scales its focal
+grid with the wavelength).  The code sets `wavefront.wavelength = 1` before calling them and gives
+the output the input's wavelength. -/
+def msForwardWf {d n : Nat} (lsAt : K → List (MSLevel K d n)) (stop : Option (Vec K n)) (wf : Wf K n) : Wf K n :=
+  let atOne : Wf K n := { wf with wavelength := 1 }
+  { E := msForward (lsAt atOne.wavelength) stop atOne.E, wavelength := wf.wavelength }
+
+/-- The variant without the rescaling (what `forward` would be without `wavefront.wavelength = 1`):
+kept to show that achromaticity is a property of the bookkeeping, not of the model's types. -/
+def msForwardWfBad {d n : Nat} (lsAt : K → List (MSLevel K d n)) (stop : Option (Vec K n)) (wf : Wf K n) : Wf K n :=
+  { E := msForward (lsAt wf.wavelength) stop wf.E, wavelength := wf.wavelength }
+
+end MultiScaleAlgebra
 
 /-- Gaussian rationals, the scalar at which the driver runs the Lyot model. -/
 structure CRat where
@@ -131,6 +337,9 @@ instance : Div CRat := ⟨fun a b =>
 instance : OfNat CRat 0 := ⟨⟨0, 0⟩⟩
 instance : OfNat CRat 1 := ⟨⟨1, 0⟩⟩
 instance : Pow CRat Nat := ⟨fun a k => (List.replicate k a).foldl (· * ·) 1⟩
+
+/-- complex conjugation -/
+def CRat.conj (a : CRat) : CRat := ⟨a.re, -a.im⟩
 
 /-! ## 4. Multi-scale phase-mask coronagraphs: level bookkeeping -/
 
